@@ -2337,12 +2337,13 @@ fn dif(out: &mut Out, rng: &mut Rng, thorough: bool) {
 	}
 	heights.extend_from_slice(&[1 << 32, 1 << 63, u64::MAX - 1, u64::MAX]);
 	let few: Vec<u64> = vec![0, YEAR_HEIGHT - 1, YEAR_HEIGHT, YEAR_HEIGHT + 5 * WEEK_HEIGHT, 4 * YEAR_HEIGHT, u64::MAX];
-	// (a) graph_weight itself: every chain type, every edge_bits 10..63
+	// (a) graph_weight itself: every chain type, EVERY edge_bits : u8 (below base_edge_bits the u8
+	// subtraction wraps, from 64 + base_edge_bits on the shift amount does, as compiled in release)
 	let mut gw_lines = 0u64;
 	let mut gw_bits: HashMap<u32, u64> = HashMap::new();
 	for (ct, cname, _) in chains.iter() {
 		global::set_local_chain_type(*ct);
-		for eb in 10u8..=63 {
+		for eb in 0u8..=255 {
 			let hl = if eb == 31 { &heights } else { &few };
 			for h in hl.iter() {
 				let (hh, e) = (*h, eb);
@@ -3382,6 +3383,338 @@ fn order_run(out: &mut Out, rng: &mut Rng, thorough: bool) {
 	out.raw(&format!("#STAT order: {}", parts.join(" ")));
 }
 
+// ---------------------------------------------------------------------------------------------
+// entry mode: pow::verify_size over the WHOLE u8 range of edge_bits (headers built through the API,
+// as the stratum server's submit does), every chain type, every header version: the glue in front
+// of the verifiers - create_pow_context dispatch, new_*_ctx node bits, CuckooParams::new shifts,
+// Graph::new size bound - against Model/PowEntry.lean (theorem verify_size_accepts_exactly_cycles)
+// ---------------------------------------------------------------------------------------------
+
+fn entry_run(out: &mut Out, rng: &mut Rng, thorough: bool) {
+	use grin_core::consensus::{header_version, HARD_FORK_INTERVAL, TESTING_HARD_FORK_INTERVAL};
+	use grin_core::core::hash::Hash;
+	use grin_core::core::BlockHeader;
+	use grin_core::pow::{pow_size, verify_size, Difficulty};
+	let chains = [
+		(ChainTypes::AutomatedTesting, "automatedtesting"),
+		(ChainTypes::UserTesting, "usertesting"),
+		(ChainTypes::Testnet, "testnet"),
+		(ChainTypes::Mainnet, "mainnet"),
+	];
+	let en_name = |r: &Result<(), Error>| -> &'static str {
+		match r {
+			Err(Error::Verification(s)) if s == "no cuckaroo past HardFork4" => "noctx",
+			Err(Error::Verification(s)) if s == "graph is to big to build" => "toobiggraph",
+			_ => err_name(r),
+		}
+	};
+	// (chain, class of edge_bits, case) -> verdict -> n
+	let mut st: HashMap<(String, &'static str, String), HashMap<&'static str, u64>> = HashMap::new();
+	let mut bad = 0u64;
+	let eb_class = |eb: u8| -> &'static str {
+		match eb {
+			0 => "eb0",
+			1..=29 => "eb1-29",
+			30..=62 => "eb30-62",
+			63 => "eb63",
+			_ if eb & 63 == 63 => "eb127/191/255",
+			_ => "eb64+",
+		}
+	};
+	let mut offer = |bh: &BlockHeader, cname: &str, ps: usize, genuine_at: Option<u8>, what: &str, out: &mut Out, st: &mut HashMap<(String, &'static str, String), HashMap<&'static str, u64>>, bad: &mut u64| -> &'static str {
+		let b2 = bh.clone();
+		let res = match catch(move || {
+			let r = verify_size(&b2);
+			en_name(&r)
+		}) {
+			Ok(s) => s,
+			Err(_) => "panic",
+		};
+		let eb = bh.pow.proof.edge_bits;
+		let ns = &bh.pow.proof.nonces;
+		*st.entry((cname.to_string(), eb_class(eb), what.to_string())).or_default().entry(res).or_insert(0) += 1;
+		let mask = (1u64 << (eb & 63)).wrapping_sub(1);
+		let asc = ns.windows(2).all(|w| w[0] < w[1]);
+		let in_range = ns.iter().all(|x| *x <= mask);
+		let pre = bh.pre_pow();
+		// the part of the rule that needs no graph: count, order, range (range as the shipped build
+		// computes the mask: 1u64 << edge_bits takes the low six bits of the amount)
+		if res == "ok" && (ns.len() != ps || !asc || !in_range) {
+			*bad += 1;
+			out.raw(&format!(
+				"#ORACLE-FAIL C05 verify_size accepts a proof that breaks the count/order/range rule: chain={} height={} edge_bits={} nonces={} (required count {}, ascending {}, all <= edge mask {}: {}) pre_pow={} case={}",
+				cname, bh.height, eb, nat_list(ns), ps, asc, mask, in_range, hex(&pre), what
+			));
+		}
+		if res == "panic" {
+			*bad += 1;
+			out.raw(&format!("#ORACLE-FAIL C05 verify_size panics: chain={} height={} edge_bits={} nonces={} pre_pow={} case={}", cname, bh.height, eb, nat_list(ns), hex(&pre), what));
+		}
+		if genuine_at == Some(eb) && res != "ok" {
+			*bad += 1;
+			out.raw(&format!(
+				"#ORACLE-FAIL C05 verify_size refuses ({}) a header whose nonces are a cycle of the graph selected for it: chain={} height={} version={} edge_bits={} nonces={} pre_pow={} case={}",
+				res, cname, bh.height, bh.version.0, eb, nat_list(ns), hex(&pre), what
+			));
+		}
+		out.line(&format!("pow entry {} {} {} {} {}", cname, bh.height, eb, hex(&pre), nat_list(ns)), res);
+		res
+	};
+	let quick_ebs: Vec<u8> = vec![0, 1, 2, 3, 5, 6, 9, 10, 11, 15, 16, 28, 29, 30, 31, 32, 33, 61, 62, 63, 64, 65, 69, 70, 73, 74, 75, 79, 92, 93, 94, 95, 96, 126, 127, 128, 138, 139, 191, 192, 202, 203, 254, 255];
+	let ebs: Vec<u8> = if thorough { (0u16..=255).map(|x| x as u8).collect() } else { quick_ebs };
+	let (mut headers, mut mined, mut solved, mut solve_fail) = (0u64, 0u64, 0u64, 0u64);
+	let mut genuine_labels: HashMap<String, u64> = HashMap::new();
+	for (ct, cname) in chains.iter() {
+		global::set_local_chain_type(*ct);
+		let ps = global::proofsize();
+		let testing = *ct == ChainTypes::AutomatedTesting || *ct == ChainTypes::UserTesting;
+		// one height on each side of every hard fork: header versions 1..5
+		let heights: Vec<u64> = match ct {
+			ChainTypes::AutomatedTesting | ChainTypes::UserTesting => {
+				let t = TESTING_HARD_FORK_INTERVAL;
+				vec![0, t, 2 * t - 1, 3 * t, 4 * t]
+			}
+			ChainTypes::Mainnet => {
+				let t = HARD_FORK_INTERVAL;
+				vec![0, t - 1, t, 2 * t - 1, 2 * t, 3 * t - 1, 3 * t, 4 * t - 1, 4 * t, 65536 * t]
+			}
+			_ => vec![0, 185_039, 185_040, 298_079, 298_080, 552_959, 552_960, 642_239, 642_240],
+		};
+		let mk = |rng: &mut Rng, h: u64, eb: u8| -> BlockHeader {
+			let mut bh = BlockHeader::default();
+			bh.height = h;
+			bh.version = header_version(h);
+			bh.prev_hash = Hash::from_vec(&rng.bytes(32));
+			bh.prev_root = Hash::from_vec(&rng.bytes(32));
+			bh.output_mmr_size = rng.below(1 << 20);
+			bh.kernel_mmr_size = rng.below(1 << 20);
+			bh.pow.nonce = rng.next();
+			bh.pow.secondary_scaling = rng.next() as u32;
+			bh.pow.total_difficulty = Difficulty::from_num(rng.next() >> rng.below(64));
+			bh.pow.proof.edge_bits = eb;
+			bh
+		};
+		// observation (not judged): Proof::hash (pack_nonces -> pack_bits) at the bit widths no wire proof
+		// can have - what to_difficulty / BlockHeader::hash meet on an API-built header
+		{
+			use grin_core::core::hash::Hashed;
+			let mut panics: Vec<String> = vec![];
+			let mut fine = 0;
+			for w in 64u16..=255 {
+				let w = w as u8;
+				let m = (1u64 << (w & 63)).wrapping_sub(1);
+				let mut ns: Vec<u64> = (0..ps).map(|_| rng.next() & m).collect();
+				ns.sort_unstable();
+				let pr = Proof { edge_bits: w, nonces: ns };
+				if catch(move || pr.hash()).is_err() {
+					panics.push(w.to_string());
+				} else {
+					fine += 1;
+				}
+			}
+			out.raw(&format!("#STAT entry {} Proof::hash with {} nonces at edge_bits 64..255: returns for {} widths, PANICS (pack_bits slice index) for {} widths: [{}]", cname, ps, fine, panics.len(), panics.join(",")));
+		}
+		// --- made-up nonce lists: the verdict (and the error kind) is fixed by count / order / range /
+		// direction balance / endpoint xor, in each variant's own order
+		for h in heights.iter() {
+			for eb in ebs.iter() {
+				let mask = (1u64 << (*eb & 63)).wrapping_sub(1);
+				let mut bh = mk(rng, *h, *eb);
+				headers += 1;
+				// `k` distinct values of `f(x)`, x below `lim`, ascending (fewer when `lim` is too small)
+				let pick = |rng: &mut Rng, k: usize, lim: u64, f: &dyn Fn(u64) -> u64| -> Vec<u64> {
+					let mut xs: Vec<u64> = vec![];
+					if lim <= 4 * k as u64 {
+						let mut all: Vec<u64> = (0..lim).collect();
+						while all.len() > k {
+							let i = rng.below(all.len() as u64) as usize;
+							all.remove(i);
+						}
+						xs = all;
+					} else {
+						while xs.len() < k {
+							let x = rng.below(lim);
+							if !xs.contains(&x) {
+								xs.push(x);
+							}
+						}
+						xs.sort_unstable();
+					}
+					xs.iter().map(|x| f(*x)).collect()
+				};
+				let n_all = mask.wrapping_add(1); // 0 never happens: eb & 63 <= 63
+				let half = n_all / 2;
+				let mut cases: Vec<(&'static str, Vec<u64>)> = vec![];
+				cases.push(("random", pick(rng, ps, n_all, &|x| x)));
+				cases.push(("all-even", pick(rng, ps, half, &|x| 2 * x)));
+				cases.push(("all-odd", pick(rng, ps, half, &|x| 2 * x + 1)));
+				{
+					let mut t = pick(rng, ps / 2, half, &|x| 2 * x);
+					t.extend(pick(rng, ps - ps / 2, half, &|x| 2 * x + 1));
+					t.sort_unstable();
+					cases.push(("balanced", t));
+				}
+				{
+					let mut t = pick(rng, ps, n_all, &|x| x);
+					if let Some(l) = t.last_mut() {
+						*l = mask;
+					}
+					cases.push(("last-at-mask", t.clone()));
+					if let Some(l) = t.last_mut() {
+						*l = mask.wrapping_add(1);
+					}
+					cases.push(("last-over-mask", t.clone()));
+					if let Some(l) = t.last_mut() {
+						*l = if rng.chance(1, 2) { u64::MAX } else { mask.wrapping_add(1) << rng.below(8) };
+					}
+					t.sort_unstable();
+					cases.push(("far-over-mask", t));
+				}
+				{
+					let mut t = pick(rng, ps, n_all, &|x| x);
+					if t.len() >= 2 {
+						let i = rng.below(t.len() as u64 - 1) as usize;
+						t.swap(i, i + 1);
+					}
+					cases.push(("swapped", t));
+				}
+				cases.push(("short", pick(rng, ps - 1, n_all, &|x| x)));
+				cases.push(("long", pick(rng, ps + 1, n_all, &|x| x)));
+				for (what, ns) in cases.into_iter() {
+					bh.pow.proof.nonces = ns;
+					offer(&bh, cname, ps, None, what, out, &mut st, &mut bad);
+				}
+			}
+		}
+		// --- genuine cycles, offered under their own label and relabelled
+		if testing {
+			// mined by the repo's own miner at the chain's minimum size
+			let min_eb = global::min_edge_bits();
+			let n_mine = if *ct == ChainTypes::AutomatedTesting { if thorough { 40 } else { 12 } } else if thorough { 6 } else { 2 };
+			for i in 0..n_mine {
+				let h = heights[i % heights.len()];
+				let mut b = mk(rng, h, min_eb);
+				let r = catch(std::panic::AssertUnwindSafe(move || {
+					let r = pow_size(&mut b, Difficulty::zero(), ps, min_eb);
+					(r.is_ok(), b)
+				}));
+				if let Ok((true, b)) = r {
+					mined += 1;
+					if i == 0 {
+						// observation (not judged): what the share / header rules compute for the relabelled header
+						let mut parts: Vec<String> = vec![];
+						for l in [min_eb, min_eb + 64, min_eb + 128, min_eb + 192].iter() {
+							let mut x = b.clone();
+							x.pow.proof.edge_bits = *l;
+							let hh = x.height;
+							let x2 = x.clone();
+							let d = catch(move || x2.pow.to_difficulty(hh).to_num()).map(|d| d.to_string()).unwrap_or_else(|_| "panic".to_string());
+							let x3 = x.clone();
+							let v = catch(move || verify_size(&x3).is_ok()).map(|d| d.to_string()).unwrap_or_else(|_| "panic".to_string());
+							let x4 = x.clone();
+							let w = catch(move || ser::ser_vec(&x4, ser::ProtocolVersion::local()).ok().map(|bytes| {
+								let back: Result<BlockHeader, ser::Error> = ser::deserialize(&mut &bytes[..], ser::ProtocolVersion::local(), ser::DeserializationMode::Full);
+								back.is_ok()
+							})).map(|d| format!("{:?}", d)).unwrap_or_else(|_| "panic".to_string());
+							parts.push(format!("label {}: is_primary={} graph_weight={} to_difficulty={} verify_size_ok={} serialised-then-read-back={}", l, x.pow.is_primary(), grin_core::consensus::graph_weight(hh, *l), d, v, w));
+						}
+						out.raw(&format!("#STAT entry relabel observation {} (one header mined at edge_bits {}, height {}): {}", cname, min_eb, b.height, parts.join("; ")));
+					}
+					let mut labels: Vec<u8> = vec![min_eb, min_eb + 64, min_eb + 128, min_eb + 192, min_eb - 1, min_eb + 1, min_eb + 63, min_eb + 65, 63, 127, 0, 64, 29, 31];
+					for _ in 0..4 {
+						labels.push(rng.below(256) as u8);
+					}
+					for l in labels.iter() {
+						let mut x = b.clone();
+						x.pow.proof.edge_bits = *l;
+						let r = offer(&x, cname, ps, Some(min_eb), "mined-relabelled", out, &mut st, &mut bad);
+						*genuine_labels.entry(format!("{}:mined@{}:label{}:{}", cname, min_eb, if *l == min_eb { "=".to_string() } else if (*l & 63) == (min_eb & 63) { "+64k".to_string() } else { "other".to_string() }, r)).or_insert(0) += 1;
+					}
+				}
+			}
+		} else {
+			// Mainnet / Testnet: for every header version a header whose pre_pow seeds an 11-bit graph
+			// with a 42-cycle under the graph definition scheduled for that version (found by this
+			// harness's own cycle finder); plus Cuckatoo cycles, which only a label above 29 selects
+			let eb0: u8 = 11;
+			let mut targets: Vec<(Var, u64)> = vec![];
+			for h in heights.iter() {
+				let v = match header_version(*h).0 {
+					1 => Some(Var::Cuckaroo),
+					2 => Some(Var::Cuckarood),
+					3 => Some(Var::Cuckaroom),
+					4 => Some(Var::Cuckarooz),
+					_ => None,
+				};
+				if let Some(v) = v {
+					if !targets.iter().any(|t| t.0 == v) || thorough {
+						targets.push((v, *h));
+					}
+				}
+				// a graph definition NOT scheduled for this height (must be refused under every label <= 29)
+				if thorough || *h == heights[2] {
+					targets.push((Var::Cuckatoo, *h));
+				}
+			}
+			targets.push((Var::Cuckatoo, *heights.last().unwrap()));
+			for (v, h) in targets.iter() {
+				let mut found: Option<BlockHeader> = None;
+				let mut tries = 0;
+				while tries < 4000 && found.is_none() {
+					tries += 1;
+					let mut b = mk(rng, *h, eb0);
+					let keys = real_keys(&b.pre_pow(), None);
+					let eps: Vec<(u64, u64)> = (0..(1u64 << eb0)).map(|n| v.ep(&keys, eb0, n)).collect();
+					let mut budget = 300_000u64;
+					if let Some(c) = find_cycles(*v, &eps, ps, &mut budget, 1).into_iter().next() {
+						b.pow.proof.nonces = c;
+						found = Some(b);
+					}
+				}
+				match found {
+					None => solve_fail += 1,
+					Some(b) => {
+						solved += 1;
+						let scheduled = match header_version(*h).0 {
+							1 => Some(Var::Cuckaroo),
+							2 => Some(Var::Cuckarood),
+							3 => Some(Var::Cuckaroom),
+							4 => Some(Var::Cuckarooz),
+							_ => None,
+						};
+						// the label under which the shipped build selects the graph the cycle was found in
+						let own: Option<u8> = if *v == Var::Cuckatoo { Some(eb0 + 64) } else if scheduled == Some(*v) { Some(eb0) } else { None };
+						let mut labels: Vec<u8> = vec![eb0, eb0 + 64, eb0 + 128, eb0 + 192, eb0 - 1, eb0 + 1, eb0 + 63, eb0 + 65, 29, 30, 31, 63, 0];
+						for _ in 0..3 {
+							labels.push(rng.below(256) as u8);
+						}
+						for l in labels.iter() {
+							let mut x = b.clone();
+							x.pow.proof.edge_bits = *l;
+							let r = offer(&x, cname, ps, own, &format!("{}-cycle-relabelled", v.name()), out, &mut st, &mut bad);
+							*genuine_labels.entry(format!("{}:{}@v{}:label{}:{}", cname, v.name(), header_version(*h).0, l, r)).or_insert(0) += 1;
+						}
+					}
+				}
+			}
+		}
+	}
+	out.raw(&format!(
+		"#STAT entry headers with made-up lists={} mined by pow_size={} 42-cycles found at edge_bits 11={} (searches without result={}) rule violations={}",
+		headers, mined, solved, solve_fail, bad
+	));
+	let mut gl: Vec<String> = genuine_labels.iter().map(|(k, v)| format!("{}={}", k, v)).collect();
+	gl.sort();
+	out.raw(&format!("#STAT entry genuine cycles by label: {}", gl.join(" ")));
+	let mut keys: Vec<&(String, &'static str, String)> = st.keys().collect();
+	keys.sort();
+	for k in keys {
+		let mut parts: Vec<String> = st[k].iter().map(|(r, c)| format!("{}={}", r, c)).collect();
+		parts.sort();
+		out.raw(&format!("#STAT entry {} {} {}: {}", k.0, k.1, k.2, parts.join(" ")));
+	}
+}
+
 fn main() {
 	quiet_panics();
 	let args: Vec<String> = std::env::args().collect();
@@ -3406,6 +3739,7 @@ fn main() {
 		"order" => order_run(&mut out, &mut rng, thorough),
 		"dif" => dif(&mut out, &mut rng, thorough),
 		"vsize" => vsize(&mut out, &mut rng, thorough),
+		"entry" => entry_run(&mut out, &mut rng, thorough),
 		_ => panic!("unknown mode"),
 	}
 	out.flush();
